@@ -847,8 +847,10 @@ theorem sub_plain (d : Doc) (hp : plainsB d.kids = true) : ∀ b p n, Sub d b p 
 /-- For EVERY well-formed document without optional entries -- any shape, fan-out and depth of the page tree,
     any mix of pages, templates and inner nodes, any object numbers and /Count values -- the rendered catalog
     conforms to the REGENERATED shipped specification (declarative reading: every unfolding depth).
-    FULL statement (not proved): the same for documents WITH optional entries from the menu of
-    Spec/CatalogRules.lean, and `¬ Conforms` for `mutate m d` for every valid single-rule mutation `m`. -/
+    The FULL statement is proved in the follow-up files: `rendered_conforms` (Props/C10Full.lean: the same for
+    documents WITH optional entries from the menu of Spec/CatalogRules.lean) and `mutated_rejected`
+    (Props/C10Rules.lean: `¬ Conforms` for `mutate m d`, every valid single-rule mutation `m`); this theorem is
+    kept as the first step. -/
 theorem rendered_conforms_partial (d : Doc) (hok : d.ok = true) (hcat : CatOpts.isNone d.cat = true)
     (hplain : plainsB d.kids = true) :
     Conforms (CatalogRules.render d).1 shippedCtx (CatalogRules.render d).2 shippedCat := by
